@@ -60,9 +60,12 @@ def check_dispatcher(ctx: Ctx, r: Rule) -> None:
     tnode = s.trys[tid].node
     if len(tnode.body) != 1:
         fail(r, ctx, f, tnode, "the try body must contain only the recogniser call")
+    last_in_body = bool(L2.node.body) and L2.node.body[-1] is tnode
     for h in tnode.handlers:
-        if not (len(h.body) == 1 and isinstance(h.body[0], ast.Continue)):
-            fail(r, ctx, f, tnode, "the RegexNotMatchError handler must only `continue` with the next kind")
+        okh = len(h.body) == 1 and (isinstance(h.body[0], ast.Continue) or (isinstance(h.body[0], ast.Pass) and last_in_body))
+        if not okh:
+            fail(r, ctx, f, tnode, "the RegexNotMatchError handler must only go on with the next kind (`continue`, or `pass` when the try "
+                                   "statement ends the loop body)")
     # the map
     ex = live_exits(s)
     if len(ex) != 1 or ex[0].kind != "ret" or ex[0].loops or ex[0].value[0] != "call" or ex[0].value[1] != ("class", PDM):
@@ -103,8 +106,8 @@ def check_dispatcher(ctx: Ctx, r: Rule) -> None:
         fail(r, ctx, f, L2.node, "after a successful append the inner loop must `break` (first match wins): without it a line is "
                                  f"claimed by every later kind that also matches; found {len(brk)} break(s)"
              + (f" when {cond_str(brk[0].cond)[:160]}" if brk else ""))
-    if len(cont) != 1:
-        fail(r, ctx, f, L2.node, f"exactly one `continue` (in the handler) expected; found {len(cont)}")
+    if len(cont) > 1 or (len(cont) == 0 and not all(isinstance(h.body[0], ast.Pass) for h in tnode.handlers)):
+        fail(r, ctx, f, L2.node, f"at most one `continue` (in the handler) expected; found {len(cont)}")
     # else arm: one warning
     warns = [c for c in s.calls if c.fn == ("meth", "warning") and c.loops and c.loops[-1].endswith(":else")]
     elsecalls = [c for c in s.calls if c.loops and c.loops[-1].endswith(":else") and not c.inlined and c.fn[0] != "builtin"]
